@@ -10,6 +10,8 @@ CONSTANTS
  DevNoExpiry = FALSE
  DevLogoutKeeps = TRUE
  DevLimiterPerWindowStart = FALSE
+ PollOnlyStale = FALSE
+ DevSessionPollRevives = FALSE
  DevAnyCookieValid = FALSE
  PairJars = FALSE
 INIT Init
